@@ -171,18 +171,20 @@ def globals_digest() -> tuple[str, str]:
 # ----------------------------------------------------------------------- evaluation trees
 class Ev:
     """one `with CollationManager(coll): body` evaluation; kind = the XPath function used"""
-    __slots__ = ('coll', 'inner', 'raises', 'kind')
+    __slots__ = ('coll', 'inner', 'raises', 'kind', 'dflt')
 
-    def __init__(self, coll, inner=(), raises=False, kind='compare'):
+    def __init__(self, coll, inner=(), raises=False, kind='compare', dflt=False):
         self.coll, self.inner, self.raises, self.kind = coll, list(inner), raises, kind
+        self.dflt = dflt      # collation argument omitted: `coll` is the parser's default collation
 
     def to_json(self):
-        return {'coll': self.coll, 'kind': self.kind, 'raises': self.raises,
+        return {'coll': self.coll, 'kind': self.kind, 'raises': self.raises, 'default_collation': self.dflt,
                 'inner': [e.to_json() for e in self.inner]}
 
     @staticmethod
     def from_json(j):
-        return Ev(j['coll'], [Ev.from_json(x) for x in j['inner']], j['raises'], j['kind'])
+        return Ev(j['coll'], [Ev.from_json(x) for x in j['inner']], j['raises'], j['kind'],
+                  j.get('default_collation', False))
 
     def tokens(self):
         out = ['E', enc_coll(self.coll), '7' if self.raises else '-', str(len(self.inner))]
@@ -226,7 +228,12 @@ class ExprBuilder:
         return '$' + self.collvar[coll]
 
     def expr(self, ev: Ev) -> str:
-        c = self.cref(ev.coll)
+        k = ev.kind
+        if ev.dflt:
+            return self.expr_with(ev, '')
+        return self.expr_with(ev, ', ' + self.cref(ev.coll))
+
+    def expr_with(self, ev: Ev, c: str) -> str:
         k = ev.kind
         if ev.inner or ev.raises:
             items = [f'string(count({self.expr(e)}))' for e in ev.inner] + ["'x'"]
@@ -238,22 +245,22 @@ class ExprBuilder:
         else:
             seq = '$s'
         if k == 'compare':
-            return f'compare($a, $b, {c})'
+            return f'compare($a, $b{c})'
         if k in ('contains', 'starts-with', 'ends-with', 'substring-before', 'substring-after'):
-            return f'{k}($a, $b, {c})'
+            return f'{k}($a, $b{c})'
         if k == 'index-of':
-            return f'index-of({seq}, $a, {c})'
+            return f'index-of({seq}, $a{c})'
         if k == 'distinct-values':
-            return f'distinct-values({seq}, {c})'
+            return f'distinct-values({seq}{c})'
         if k in ('max', 'min'):
-            return f'{k}({seq}, {c})'
+            return f'{k}({seq}{c})'
         if k == 'deep-equal':
-            return f'deep-equal({seq}, $s, {c})'
+            return f'deep-equal({seq}, $s{c})'
         if k == 'contains-token':
-            return f"contains-token({seq}, 'zz', {c})"
+            return f"contains-token({seq}, 'zz'{c})"
         if k == 'collation-key':
             self.ck = True
-            return f'collation-key($a, {c})'
+            return f'collation-key($a{c})'
         raise ValueError(k)
 
 
@@ -343,6 +350,18 @@ class World:
 
     def to_json(self):
         return {'init': self.init, 'avail': self.avail, 'envdefault': self.envdefault}
+
+    def default_collation(self) -> str:
+        """`XPath31Parser().default_collation` in a process whose LC_COLLATE is `init`"""
+        if getattr(self, '_dc', None) is None:
+            from elementpath.xpath31 import XPath31Parser
+            stub = LocaleStub(self.avail, self.init, self.envdefault)
+            install(stub)
+            try:
+                self._dc = XPath31Parser().default_collation
+            finally:
+                uninstall()
+        return self._dc
 
     @staticmethod
     def from_json(j):
@@ -435,6 +454,12 @@ def gen_world(rng) -> World:
 
 
 def gen_coll(rng, world: World):
+    inst = [a for a in world.avail if a not in ('C', 'POSIX')]
+    if inst and rng.random() < 0.35:               # an installed locale, in one of its spellings
+        a = rng.choice(inst)
+        lang = a.split('.')[0]
+        return rng.choice([a, a, UCA + '?lang=' + lang, UCA + '?lang=' + a + ';fallback=no',
+                           UCA + '?fallback=no;lang=' + lang, UCA + '?lang=' + lang.split('_')[0]])
     r = rng.random()
     if r < 0.10:
         return rng.choice([CODEPOINT, HTML_ASCII, CASEBLIND])
@@ -477,7 +502,15 @@ def gen_ev(rng, world: World, depth=0, allow_nest=True) -> Ev:
         inner = []
         kind = rng.choice([k for k in RAISE_MARK]) if raises else rng.choice(FLAT_KINDS)
     ev = Ev(coll, inner, raises, kind)
+    if coll is not None and rng.random() < 0.12:
+        ev.coll, ev.dflt = world.default_collation(), True
     return ev
+
+
+def walk_evs(ev: Ev):
+    yield ev
+    for e in ev.inner:
+        yield from walk_evs(e)
 
 
 def fix_markers(ev: Ev):
@@ -610,6 +643,15 @@ def compare_histories(run: Run, cases, tag_known=True):
                 run.disagree(Disagreement(prefix, impl_state, model_state, spec=spec_state,
                                           what='global-state-after-evaluation',
                                           site='collations.py CollationManager.__enter__/__exit__', tags=tags))
+            if impl[k] != model[k] and any(e.dflt for e in walk_evs(ev)):
+                # a call without collation argument is also evaluated once at parse time (static
+                # evaluation enters and leaves the default collation's scope): the request log may be
+                # the model's, repeated
+                for rep in (2, 3):
+                    if mo['log'] and io['log'] == ','.join([mo['log']] * rep):
+                        impl[k] = model[k]
+                        st.count('default-collation:static-evaluation-scope')
+                        break
             if impl[k] != model[k]:
                 run.disagree(Disagreement(prefix, impl[k], model[k], what='model-step',
                                           site='collations.py CollationManager'))
@@ -620,7 +662,7 @@ def compare_histories(run: Run, cases, tag_known=True):
 
 def correspond_histories(run: Run):
     rng = run.rng
-    n = run.scale(260, 2600)
+    n = run.scale(700, 7000)
     cases = list(CORPUS_HIST) + [gen_history(rng, run.quick) for _ in range(n)]
     for i in range(0, len(cases), 400):
         compare_histories(run, cases[i:i + 400])
@@ -664,6 +706,30 @@ def thr_line(world, progs, sched):
             f'norm={norm_table(colls, world)} progs={ps} sched={".".join(map(str, sched))}')
 
 
+def _in_enter(fr) -> bool:
+    return fr is not None and fr.f_code.co_name == '__enter__' and \
+        Path(fr.f_code.co_filename).name == 'collations.py'
+
+
+def join_all(threads, stub, limit=20.0) -> bool:
+    """wait for the threads; True = deadlock (every live thread sits in CollationManager.__enter__
+    and nothing moved on three looks 20 ms apart) or nothing finished within `limit` seconds"""
+    t0 = time.time()
+    stable, last = 0, None
+    while True:
+        alive = [t for t in threads if t.is_alive()]
+        if not alive:
+            return False
+        frames = sys._current_frames()
+        blocked = all(_in_enter(frames.get(t.ident)) for t in alive)
+        sig = (len(stub.log), stub.queries, sum(len(v) for v in stub.seen.values()), len(alive))
+        stable = stable + 1 if (blocked and sig == last) else 0
+        last = sig
+        if stable >= 3 or time.time() - t0 > limit:
+            return True
+        time.sleep(0.02)
+
+
 def run_threads_impl(world, progs, concurrent: bool, rng):
     """every thread owns its Selectors (independent objects); returns per-thread
     (outcomes, values, LC_COLLATE seen at each strcoll) and the final state"""
@@ -695,17 +761,18 @@ def run_threads_impl(world, progs, concurrent: bool, rng):
         old = sys.getswitchinterval()
         if concurrent:
             sys.setswitchinterval(1e-6)
-            for t in threads:
-                t.start()
-            deadline = time.time() + 30
-            for t in threads:
-                t.join(max(0.1, deadline - time.time()))
-            sys.setswitchinterval(old)
+            try:
+                for t in threads:
+                    t.start()
+                join_all(threads, stub)
+            finally:
+                sys.setswitchinterval(old)
         else:
             for t in threads:
                 t.start()
-                t.join(30)
-        hung = [i for i, t in enumerate(threads) if t.is_alive()]
+                if join_all([t], stub):
+                    break                      # the rest would only queue up behind the held lock
+        hung = [i for i, t in enumerate(threads) if t.is_alive() or results[i] is None]
         seen = [stub.seen.get(idents[i], []) if idents[i] is not None else [] for i in range(len(progs))]
         final = (int(lock_held()), stub.cur)
         return results, seen, final, hung
@@ -722,7 +789,11 @@ def compare_threads(run: Run, cases):
         sched = [rng.randrange(len(progs)) for _ in range(total)]
         lines.append(thr_line(world, progs, sched))
     answers = run.driver('C19', lines)
+    hung_cases = 0
     for (world, progs), ans in zip(cases, answers):
+        if hung_cases >= 3:
+            run.notes.append('thread phase stopped after 3 hung cases')
+            break
         case = {'world': world.to_json(), 'programs': progs}
         if not ans.startswith('model='):
             run.disagree(Disagreement(case, 'driver:' + ans, what='protocol'))
@@ -740,6 +811,7 @@ def compare_threads(run: Run, cases):
         for name, (results, seen, final, hung) in (('sequential', seq), ('concurrent', con)):
             impl_final = f'{final[0]}#{enc(final[1])}'
             if hung:
+                hung_cases += 1
                 run.disagree(Disagreement(case, f'HANG threads={hung} final={impl_final}',
                                           f'{mlock}#{mlc}', spec=spec_final, what=f'threads-{name}-hang',
                                           site='collations.py _locale_collate_lock'))
@@ -1019,9 +1091,13 @@ def search(run: Run):
         for f in firsts:
             for c2 in alphabet:
                 cases.append((w, [f, Ev(c2)]))
-    for i in range(0, len(cases), 500):
-        compare_histories(sub, cases[i:i + 500])
-    run.notes.append(f'search: {len(cases)} exhaustive small-scope histories on the real code, '
+    done = 0
+    for i in range(0, len(cases), 300):
+        compare_histories(sub, cases[i:i + 300])
+        done = min(len(cases), i + 300)
+        if any(d.kind == 'violation' and not d.tags for d in sub.disagreements):
+            break                                  # a failing input is in hand
+    run.notes.append(f'search: {done} of {len(cases)} exhaustive small-scope histories on the real code, '
                      f'{len(sub.disagreements)} disagreements')
     return sub.disagreements
 
@@ -1099,7 +1175,19 @@ def replay(run: Run, path: str) -> int:
     return run.finish('proof')
 
 
+def arm_deadline(run: Run):
+    """the check must never hang: past the tier's budget, give up as a harness fault (exit 2)"""
+    budget = 175 if run.quick else 1180
+
+    def bomb():
+        time.sleep(budget)
+        print(f'TIMEOUT in {PROP}: exceeded {budget}s', file=sys.stderr, flush=True)
+        os._exit(2)
+    threading.Thread(target=bomb, daemon=True).start()
+
+
 def body(run: Run) -> int:
+    arm_deadline(run)
     if getattr(run, 'replay', None):
         run.prove(['EPV.Props.C19', 'EPV.Props.C19Defaults'], ['EPV.Spec.GlobalsSpec'])
         return replay(run, run.replay)
